@@ -16,13 +16,58 @@ def other_mode(r, o):
     return ROUNDS[(ROUNDS.index(r) + 2) % 5], OVFS[1 - OVFS.index(o)]
 
 
+def hist_of(*key):
+    """deterministic history selector (0 = built directly): derived from the line's own content, so a replay reproduces it."""
+    h = 0
+    for k in key:
+        h = (h * 131 + (int(k) if not isinstance(k, str) else sum(map(ord, k)))) % 1000003
+    return h % 5
+
+
+def empty_via_history(h, init, signed, n, f, **cfg):
+    """an object of format (signed, n, f) holding `init` (None / zeros array), reached through a history of in-place format changes.
+    The properties quantify over objects however produced: h=0 direct; 1 resize(signed,n_word,n_frac) from the opposite signedness;
+    2 resize(dtype='fxp-..') from the opposite signedness; 3 resize(n_int=, n_frac=) from another word; 4 like= a template that was itself resized."""
+    if h == 4 and ('op_out' in cfg or 'op_out_like' in cfg):
+        h = 2       # like= deep-copies the template's config, so an op_out target would (rightly) be a copy: not this route
+    if h == 0:
+        return Fxp(init, signed, n, f, **cfg)
+    if h == 1:
+        x = Fxp(init, not signed, max(n - 1, 2), f, **cfg)
+        x.resize(signed, n, f)
+    elif h == 2:
+        x = Fxp(init, not signed, n + 1, f, **cfg)
+        x.resize(dtype='fxp-%s%d/%d' % ('s' if signed else 'u', n, f))
+    elif h == 3:
+        x = Fxp(init, signed, n + 2, f + 1, **cfg)
+        x.resize(n_int=n - f - (1 if signed else 0), n_frac=f)
+    else:
+        t = Fxp(None, not signed, n + 3, f - 1, **cfg)
+        t.resize(dtype='fxp-%s%d/%d' % ('s' if signed else 'u', n, f))
+        x = Fxp(init, like=t)
+    assert (x.signed, x.n_word, x.n_frac) == (signed, n, f), 'history did not reach the format: %s' % x.dtype
+    return x
+
+
 def mk(codes, signed, n, f, **cfg):
-    """Fxp holding exactly these codes (scalar when one code, 1-D array otherwise; '2d:' handled by caller)."""
+    """Fxp holding exactly these codes (scalar when one code, 1-D array otherwise; '2d:' handled by caller).
+    Small-word operands are reached through a content-determined history (see empty_via_history)."""
+    h = hist_of(n, f, int(signed), len(codes), *[c % 97 for c in codes[:4]]) if n <= 60 else 0
     if len(codes) == 1:
-        return Fxp(codes[0], signed, n, f, raw=True, **cfg)
+        if h == 0:
+            return Fxp(codes[0], signed, n, f, raw=True, **cfg)
+        x = empty_via_history(h, None, signed, n, f, **cfg)
+        x.set_val(codes[0], raw=True)
+        x.reset()
+        return x
     n_obj = n >= 64 or any(abs(c) >= 2 ** 63 for c in codes)
     arr = np.array(codes, dtype=object) if n_obj else np.array(codes, dtype=np.int64)
-    return Fxp(arr, signed, n, f, raw=True, **cfg)
+    if h == 0:
+        return Fxp(arr, signed, n, f, raw=True, **cfg)
+    x = empty_via_history(h, np.zeros(len(codes), dtype=int), signed, n, f, **cfg)
+    x.set_val(arr, raw=True)
+    x.reset()
+    return x
 
 
 def parse_fmt(t, i):
